@@ -256,9 +256,16 @@ class Tr:
     def __init__(self):
         self.buf = bytearray()
         self.marks = []
+        self.high = None        # write flow control: above this many unsent bytes the protocol is told to pause writing
+        self.unsent = 0
+        self.on_pause = None
 
     def write(self, d):
         self.buf += bytes(d)
+        if self.high is not None:
+            self.unsent += len(d)
+            if self.unsent > self.high and self.on_pause is not None:
+                self.on_pause()
 
     def is_closing(self):
         return False
@@ -283,10 +290,10 @@ def _mk_proto():
     return proto
 
 
-def make_writer(cfg, tr, rnd):
+def make_writer(cfg, tr, rnd, limit=2 ** 62):
     from aiohttp._websocket.writer import WebSocketWriter
     w = WebSocketWriter(_mk_proto(), tr, use_mask=bool(cfg["mask"]), compress=cfg["compress"],
-                        notakeover=bool(cfg["notakeover"]), random=rnd, limit=2 ** 62)
+                        notakeover=bool(cfg["notakeover"]), random=rnd, limit=limit)
     return w
 
 
@@ -308,6 +315,49 @@ def parse_frames(buf: bytes):
         out.append((b0, bool(b1 & 0x80), n))
         i += n
     return out
+
+
+def decode_wire(buf: bytes):
+    """Independent decoder of a whole transport stream: ([(opcode, rsv1, payload)], complete) — `complete` is False
+    when the stream ends inside a frame."""
+    out, i, n_all = [], 0, len(buf)
+    while i < n_all:
+        if n_all - i < 2:
+            return out, False
+        b0, b1 = buf[i], buf[i + 1]
+        n = b1 & 0x7F
+        i += 2
+        if n == 126:
+            if n_all - i < 2:
+                return out, False
+            n = struct.unpack("!H", buf[i:i + 2])[0]
+            i += 2
+        elif n == 127:
+            if n_all - i < 8:
+                return out, False
+            n = struct.unpack("!Q", buf[i:i + 8])[0]
+            i += 8
+        key = None
+        if b1 & 0x80:
+            if n_all - i < 4:
+                return out, False
+            key = buf[i:i + 4]
+            i += 4
+        if n_all - i < n:
+            return out, False
+        p = bytes(buf[i:i + n])
+        if key is not None:
+            p = bytes(x ^ key[k & 3] for k, x in enumerate(p)) if n < 4096 else _unmask_big(p, key)
+        out.append((b0 & 0x0F, bool(b0 & 0x40), p, b0))
+        i += n
+    return out, True
+
+
+def _unmask_big(p: bytes, key: bytes) -> bytes:
+    a = bytearray(p)
+    for k in range(4):
+        a[k::4] = a[k::4].translate(_XOR[key[k]])
+    return bytes(a)
 
 
 def inline_executor(loop):
@@ -1064,7 +1114,35 @@ def run_history(case):
         with _Backend(case.get("backend", "zlib")):
             inner_backend = cu.ZLibBackend._zlib_backend
             cu.set_zlib_backend(_TraceBackend(inner_backend, log, owner))
-            w = make_writer(cfg, tr, rnd)
+            w = make_writer(cfg, tr, rnd, limit=case.get("limit", 2 ** 62))
+            drain_waiters = []
+            if case.get("highwater"):
+                # a transport with write flow control: above `highwater` unsent bytes the protocol is paused; the bytes
+                # leave a little later (virtual time), which resumes the protocol and wakes _drain_helper() callers
+                proto = w.protocol
+                tr.high = case["highwater"]
+
+                def drained():
+                    tr.unsent = 0
+                    proto._paused = False
+                    for f in drain_waiters[:]:
+                        if not f.done():
+                            f.set_result(None)
+                    del drain_waiters[:]
+
+                def on_pause():
+                    if not proto._paused:
+                        proto._paused = True
+                        loop.call_later(0.01, drained)
+                tr.on_pause = on_pause
+
+                async def drain_helper():
+                    if not proto._paused:
+                        return
+                    f = loop.create_future()
+                    drain_waiters.append(f)
+                    await f
+                proto._drain_helper = drain_helper
             if isinstance(getattr(w, "_send_lock", None), asyncio.Lock):
                 w._send_lock = TLock()
             o_wf = getattr(w, "_write_websocket_frame", None)
@@ -1110,6 +1188,11 @@ def run_history(case):
             if "script" in case:
                 loop.run_until_complete(director())
                 settle()
+                for _ in range(50):         # let the transport drain and everything that waits for it finish
+                    if not drain_waiters and not getattr(w.protocol, "_paused", False):
+                        break
+                    loop.run_until_complete(asyncio.sleep(0.02))
+                    settle()
 
             for st in case.get("steps", []):
                 if st[0] == "spawn":
@@ -1215,6 +1298,18 @@ def judge_history(case, r):
     """The property on a concurrent history: the reader delivers, unharmed and without error, exactly one copy of
     every message whose send completed, at most one copy of a message whose sender was cancelled, nothing else,
     and each sender's messages in the order it sent them."""
+    frames, complete = decode_wire(r["wire"])
+    if not complete:
+        return (f"the transport stream ends inside a frame ({len(frames)} complete frames, {len(r['wire'])} bytes): a frame was "
+                f"left half written")
+    plain = {}
+    for ops in case["senders"]:
+        for op in ops:
+            plain[(op[1], op[4])] = True
+    for k, (opcode, rsv1, payload, b0) in enumerate(frames):
+        if b0 & 0x30 or not (b0 & 0x80) or (not rsv1 and (opcode, payload.hex()) not in plain):
+            return (f"frame {k} on the wire (first byte {b0:#x}, {len(payload)} payload bytes) is no submitted message: frames of "
+                    f"different senders are interleaved on the transport")
     if r["status"] != "LIVE":
         return f"the reader failed with {r['status']} after {len(r['msgs'])} messages"
     if r["stuck"]:
@@ -1311,7 +1406,26 @@ def gen_script(rng, backend, i):
             return ["S", OP_PING, 0, 0, tagb.hex()]
         n = rng.choice([16385, 16400, 17000]) if kind == "big" else rng.choice([0, 5, 300, 16384 - 6])
         return ["S", OP_BINARY, 0, 0, (tagb + (common * (n // len(common) + 1))[:n]).hex()]
-    mode = i % 3
+    mode = i % 4
+    if mode == 3:
+        # server side, nothing negotiated: a message far above the transport's high-water mark, so that writing is
+        # paused while (or right after) it is handed over; another sender runs, or the big sender is cancelled, meanwhile
+        cfg = {"mask": 0, "compress": 0, "notakeover": 0}
+        uid[0] += 1
+        big = ["S", OP_BINARY, 0, 0, (b"<%04d>" % uid[0] + rng.randbytes(64) * (rng.choice([270000, 300000, 600000]) // 64)).hex()]
+        senders = [[big], [op("small")], [op("ping")], [op("small")]]
+        v = rng.randrange(4)
+        if v == 0:
+            script = [["start", 0], ["yield"], ["send", 1], ["send", 2]]
+        elif v == 1:
+            script = [["start", 0], ["yield"], ["cancel", 0], ["yield"], ["send", 1], ["send", 3]]
+        elif v == 2:
+            script = [["gather", [0, 1, 2, 3]]]
+        else:
+            script = [["start", 0], ["yield"], ["start", 1], ["yield"], ["cancel", 0], ["send", 2]]
+        return {"kind": "concurrent", "suite": "concurrent", "backend": "toy", "cfg": cfg, "rc": {"max": 0, "decode_text": 0},
+                "senders": senders, "script": script, "cuts": gen_cuts(rng, 4000), "eager": 0,
+                "highwater": rng.choice([65536, 65536, 1000]), "limit": 65536}
     if mode == 0:      # asyncio.gather(send(big), send(small), ...)
         kinds = [rng.choice(["big", "small", "small", "ping"]) for _ in range(rng.randrange(2, 6))]
         kinds[0] = "big"
@@ -1392,7 +1506,7 @@ def suite_concurrent(ctx, exe):
             continue
         ran += 1
         ctx.case((json.dumps(case, sort_keys=True), r["wire"], r["status"]), nontrivial=bool(r["msgs"]))
-        if exe is not None and r["traced"]:
+        if exe is not None and r["traced"] and not case.get("highwater"):
             evs, why = lts_events(case, r)
             if evs is None:
                 ctx.disagreement("concurrent", _small_h(case), "trace not expressible in the sender LTS", why)
